@@ -51,17 +51,33 @@ def run_worker(modname, cond, tier, seed):
     wall = timeout * 1.6 + 45
     t0 = time.time()
     try:
-        p = subprocess.run(
-            [PY, "-m", "vf.worker", modname, cond["name"], str(timeout), tier],
-            cwd=VERIF, env=child_env(tier, seed), capture_output=True, text=True, timeout=wall,
-        )
-        out = None
-        for line in p.stdout.splitlines():
-            if line.startswith("@@RESULT@@"):
-                out = json.loads(line[len("@@RESULT@@"):])
-        if out is None:
-            out = {"cond": cond["name"], "verdict": "error",
-                   "message": "worker produced no result (rc=%s): %s" % (p.returncode, (p.stderr or "")[-1500:])}
+        proc = subprocess.Popen([PY, "-m", "vf.worker", modname, cond["name"], str(timeout), tier],
+                                cwd=VERIF, env=child_env(tier, seed), stdout=subprocess.PIPE, stderr=subprocess.PIPE, text=True)
+        stopped = False
+        while True:
+            try:
+                stdout, stderr = proc.communicate(timeout=2)
+                break
+            except subprocess.TimeoutExpired:
+                if time.time() - t0 > wall:
+                    proc.kill()
+                    proc.communicate()
+                    raise
+                if STOP["flag"] and not cond.get("selftest"):       # seed runs only: a replayed violation exists, nothing more to learn from this condition
+                    proc.kill()
+                    proc.communicate()
+                    stopped = True
+                    break
+        if stopped:
+            out = {"cond": cond["name"], "verdict": "unknown", "message": "stopped: VERIF_STOP_AT_FIRST and a replayed violation was already found", "paths": None, "args": None}
+        else:
+            out = None
+            for line in stdout.splitlines():
+                if line.startswith("@@RESULT@@"):
+                    out = json.loads(line[len("@@RESULT@@"):])
+            if out is None:
+                out = {"cond": cond["name"], "verdict": "error",
+                       "message": "worker produced no result (rc=%s): %s" % (proc.returncode, (stderr or "")[-1500:])}
     except subprocess.TimeoutExpired:
         out = {"cond": cond["name"], "verdict": "unknown", "message": "killed at hard wall-clock limit %.0fs" % wall,
                "paths": None, "args": None}
